@@ -26,6 +26,9 @@ func compileRx(p string) *regexp.Regexp {
 	return rx
 }
 
+// FloatKeyInf is types.VerifFloatKey(math.Inf(1)), coq/Model/Lattice.v InfF.
+const FloatKeyInf int64 = 0x7FF0000000000000
+
 func RefDen(t *types.VerifTy, v *types.VerifVal, asg func(t, u *types.VerifTy) (bool, bool)) (res bool, ok bool) {
 	between := func(lo, hi, n int64) bool { return lo <= n && n <= hi }
 	switch t.K {
@@ -46,7 +49,16 @@ func RefDen(t *types.VerifTy, v *types.VerifVal, asg func(t, u *types.VerifTy) (
 		if t.NaN {
 			return false, false
 		}
-		return v.K == "Float" && !v.NaN && between(t.Lo, t.Hi, v.I), true
+		// Spec.v: the floats between the bounds; NaN is not ordered and belongs to the unbounded Float type only
+		// (bounds and values are order keys: FloatKeyInf is the key of +Inf)
+		unbounded := t.Lo <= -FloatKeyInf && FloatKeyInf <= t.Hi
+		if v.K != "Float" {
+			return false, true
+		}
+		if v.NaN {
+			return unbounded, true
+		}
+		return between(t.Lo, t.Hi, v.I) || unbounded, true
 	case "Numeric":
 		return v.K == "Int" || v.K == "Float", true
 	case "Scalar":
